@@ -5,6 +5,8 @@ import TfPwaV.Model.VarsF
 `C08 fit <fixSame> <fixStd> <polar> <lbfgsb> <newtonRm> <hessOpt> <minuitSet> <exceptRm> <method> <stdc>
       | <setup ops of C16, separated by ;> | <bounds: n (name lo hi)*> | <abort> <hasHessInv> <success> <fval> <x: n v*>
       | <evals: (t|r) n v* separated by ;>`
+`C08 fitv <fixSame> <fixStd> <stdFree> <boundHead> <polar> <lbfgsb> <newtonRm> <hessOpt> <minuitSet> <exceptRm> <stdBounded>
+      <method> <stdc> | …` : the same with every variant flag of `Vars.Cfg` and `Fit.Fix`
 answer: `<dump of the state before the fit> # <dump of the state when the minimiser returns (bounds registered)> # <dump of the final state> # ok <ndf> <success> <minNll> <k=v,...>` or `… # raised <exc>` -/
 namespace TfPwaV.FitF
 open TfPwaV.Vars TfPwaV.Util TfPwaV.Fit TfPwaV.VarsF
@@ -37,27 +39,36 @@ def showOutcome : Outcome Float → String
   | .ok r => "ok " ++ toString r.ndf ++ " " ++ showB r.success ++ " " ++ showF r.minNll ++ " " ++
       ",".intercalate (r.params.map fun kv => kv.1 ++ "=" ++ showF kv.2)
 
+/-- run one case with all variant flags given -/
+def runCase (cfg : Cfg) (fx : Fix) (pol : Bool) (m : Method) (stdc : Bool) (rest : List String) : Option String :=
+  match splitBar rest with
+  | [setup, bnds, ora, evs] => do
+    let s0 ← runSetup cfg (State.empty 0.0 pol) (splitOps setup)
+    let (b, _) ← pBounds bnds
+    match ora with
+    | ab :: hh :: su :: fv :: xs => do
+      let ab ← pB ab; let hh ← pB hh; let su ← pB su; let fv ← parseF fv
+      let (x, _) ← pFloats xs
+      let evals ← (splitOps evs).mapM pEval
+      let o : Oracle Float := ⟨evals, ab, x, fv, su, hh⟩
+      let r := fit arithF cfg fx m stdc s0 b o
+      let mid := afterEvals arithF cfg m s0 (regBounds cfg s0 b) o
+      some (dump s0 .none ++ "#" ++ dump mid .none ++ "#" ++ dump r.1 .none ++ "#" ++ showOutcome r.2)
+    | _ => none
+  | _ => none
+
 def handle : List String → Option String
   | "fit" :: fs :: fa :: pol :: f1 :: f2 :: f3 :: f4 :: f5 :: meth :: stdc :: "|" :: rest => do
     let fs ← pB fs; let fa ← pB fa; let pol ← pB pol
     let f1 ← pB f1; let f2 ← pB f2; let f3 ← pB f3; let f4 ← pB f4; let f5 ← pB f5
     let m ← pMethod meth; let stdc ← pB stdc
-    match splitBar rest with
-    | [setup, bnds, ora, evs] => do
-      let cfg : Cfg := ⟨fs, fa⟩
-      let s0 ← runSetup cfg (State.empty 0.0 pol) (splitOps setup)
-      let (b, _) ← pBounds bnds
-      match ora with
-      | ab :: hh :: su :: fv :: xs => do
-        let ab ← pB ab; let hh ← pB hh; let su ← pB su; let fv ← parseF fv
-        let (x, _) ← pFloats xs
-        let evals ← (splitOps evs).mapM pEval
-        let o : Oracle Float := ⟨evals, ab, x, fv, su, hh⟩
-        let r := fit arithF cfg ⟨f1, f2, f3, f4, f5⟩ m stdc s0 b o
-        let mid := afterEvals arithF cfg m s0 b o
-        some (dump s0 .none ++ "#" ++ dump mid .none ++ "#" ++ dump r.1 .none ++ "#" ++ showOutcome r.2)
-      | _ => none
-    | _ => none
+    runCase ⟨fs, fa, false, false⟩ ⟨f1, f2, f3, f4, f5, false⟩ pol m stdc rest
+  -- all variant flags: Cfg = fixSame fixStd stdFree boundHead; Fix = lbfgsb newtonRm hessOpt minuitSet exceptRm stdBounded
+  | "fitv" :: fs :: fa :: sf :: bh :: pol :: f1 :: f2 :: f3 :: f4 :: f5 :: f6 :: meth :: stdc :: "|" :: rest => do
+    let fs ← pB fs; let fa ← pB fa; let sf ← pB sf; let bh ← pB bh; let pol ← pB pol
+    let f1 ← pB f1; let f2 ← pB f2; let f3 ← pB f3; let f4 ← pB f4; let f5 ← pB f5; let f6 ← pB f6
+    let m ← pMethod meth; let stdc ← pB stdc
+    runCase ⟨fs, fa, sf, bh⟩ ⟨f1, f2, f3, f4, f5, f6⟩ pol m stdc rest
   | _ => none
 
 end TfPwaV.FitF
